@@ -1,6 +1,7 @@
 import Uquic.Oracle.Frame
 import Uquic.Model.Handshake.Gate
 import Uquic.Model.Handshake.Deadline
+import Uquic.Model.Handshake.Auth
 import Uquic.Spec.GateMon
 
 open Uquic.Oracle Uquic.Model.Handshake Uquic.Spec.GateMon
@@ -290,6 +291,8 @@ def stepRun (s : St) (impl : String) : St × StepOut := Id.run do
       pending := some impl
     if vn == "fail" then
       fails := fails ++ [("success_without_common_version", "-", impl)]
+    if s.scn.get "net" == "blackhole" || s.scn.get "net" == "hsblock" then
+      fails := fails ++ [("success_without_server_flight", "-", impl)]
   if m.get "cleft" != "0" || m.get "sleft" != "0" then
     fails := fails ++ [("state_not_released", "-", impl)]
   if dial != "nil" && !(m.get "redial" == "nil" || m.get "redial" == "-") then
@@ -316,6 +319,27 @@ def stepDeadline (s : St) (impl : String) : St × StepOut :=
     (s, { model := left ++ " | " ++ cls ++ s!" at={dl}", tags := ["deadline:" ++ cls] })
   | _ => (s, { model := "bad-line" })
 
+def stepAuth (s : St) (impl : String) : St × StepOut :=
+  match impl.splitOn " | " with
+  | [left, _] =>
+    match sections left with
+    | [stw, pw] =>
+      let st := stateOf (kvOf stw)
+      let pm := kvOf pw
+      let params : CIDParams := { initialSourceConnectionID := cidOf (pm.get "isc"),
+                                  originalDestinationConnectionID := cidOf (pm.get "odc"),
+                                  retrySourceConnectionID := optCidOf (pm.get "rsc") }
+      let res := match checkTransportParameters st params with
+        | none => "ok"
+        | some .initialSourceConnectionID => "E:isc"
+        | some .originalDestinationConnectionID => "E:odc"
+        | some .missingRetrySourceConnectionID => "E:rsc_missing"
+        | some .wrongRetrySourceConnectionID => "E:rsc_wrong"
+        | some .unexpectedRetrySourceConnectionID => "E:rsc_unexpected"
+      (s, { model := left ++ " | " ++ res, tags := ["auth:" ++ res] })
+    | _ => (s, { model := "bad-line" })
+  | _ => (s, { model := "bad-line" })
+
 def step (s : St) (op impl : String) : St × StepOut :=
   match words op with
   | "scn" :: rest => ({ s with scn := kvOf rest }, { model := impl, tags := rest.map (fun w => "scn:" ++ w) })
@@ -327,13 +351,15 @@ def step (s : St) (op impl : String) : St × StepOut :=
     else stepRun s impl
   | ["pkt", i] => if impl == "skip" then (s, { model := impl }) else stepPkt s (natOf i) impl
   | ["deadline"] => if impl == "skip" then (s, { model := impl }) else stepDeadline s impl
+  | ["auth", _] => if impl == "skip" then (s, { model := impl }) else stepAuth s impl
   | _ => (s, { model := "bad-op" })
 
 /-- judged when the whole trace of the run was seen: with bounded faults and no effective attack the
 handshake converges -/
 def final (s : St) : List (String × String × String) :=
   let complete := s.ran && s.ntrace == s.seenPkts
-  (if complete && s.run.get "dial" != "nil" && s.scn.get "vn" != "fail" && !s.effective && !s.harmed then
+  (if complete && s.run.get "dial" != "nil" && s.scn.get "vn" != "fail" && (s.scn.get "net" == "ok" || s.scn.get "net" == "") &&
+      !s.effective && !s.harmed then
     [("bounded_faults_do_not_converge", "-", s!"dial={s.run.get "dial"} with {s.nFault} faults and {s.nInj} ineffective injections")]
   else []) ++
   (match s.pendingAgree with
